@@ -194,6 +194,10 @@ func runC15(w *core.WorkerCtx, idx int) *core.CaseResult {
 		return res
 	}
 	res.Sig = fmt.Sprintf("%x", core.HashString(text+fmt.Sprint(groups)))
+	nGroups := map[string]int{}
+	for j, gs := range groups {
+		nGroups[j] = len(gs)
+	}
 	idToHash := map[string]uint64{}
 	hashToID := map[uint64]string{}
 	var trace []string
@@ -210,6 +214,20 @@ func runC15(w *core.WorkerCtx, idx int) *core.CaseResult {
 				}
 				idToHash[t.ID] = t.Hash
 				hashToID[t.Hash] = t.ID
+			}
+		}
+		// entries of one group that are equal in final labels and URL collapse: a job's list may repeat a hash
+		// at most once per group of that job
+		for j, ts := range o.PerJob {
+			cnt := map[uint64]int{}
+			for _, t := range ts {
+				cnt[t.Hash]++
+			}
+			for h, n := range cnt {
+				if n > nGroups[j] {
+					res.Violate("C15/duplicate-entries-not-collapsed", "%s: job %s lists target %d (%s) %d times although it has only %d group(s)", where, j, h, hashToID[h], n, nGroups[j])
+					break
+				}
 			}
 		}
 		// ActiveTargetsByHash: one key per identity
